@@ -145,7 +145,7 @@ def shrink(c0, p0, events, key):
             _, vs = run_history(c, p, evs)
         except Exception:
             return False
-        return any(classify(v) == key for v in vs)
+        return any(classify(v) == key for v in vs)   # key None: any violation outside the recorded regions
     evs = list(events)
     changed = True
     while changed:
@@ -231,15 +231,18 @@ def run(ctx):
             ctx.count('outcome', t.split(':')[0] + (':' + ':'.join(t.split(':')[2:4]) if t.startswith('sent:') else ''))
         for v in viol:
             key = classify(v)
-            if key is None:
-                sc, sp, se = c0, p0, evs[:v['event_index'] + 1]
-                key = f'c={sc} p={sp} ' + ' '.join(se)
+            known_class = key is not None
+            if key is None:     # not one of the recorded defect regions: name the circumstances, show a minimal history
+                how, earlier, pend = v['origin'] if v['origin'] else ('?', 0, 0)
+                key = f"unlisted:{how}:earlier-fills-in-context={min(earlier, 1)}:own-pending={min(pend, 1)}"
+            shrunk[key] = shrunk.get(key, 0) + 1
+            if shrunk[key] <= 2:
+                sc, sp, se = shrink(c0, p0, evs[:v['event_index'] + 1], key if known_class else None)
             else:
-                shrunk[key] = shrunk.get(key, 0) + 1
-                sc, sp, se = shrink(c0, p0, evs[:v['event_index'] + 1], key) if shrunk[key] <= 2 else (c0, p0, evs[:v['event_index'] + 1])
+                sc, sp, se = c0, p0, evs[:v['event_index'] + 1]
             if (sc, sp, se) != (c0, p0, evs[:v['event_index'] + 1]):
                 _, vs2 = run_history(sc, sp, se)
-                v = next(x for x in vs2 if classify(x) == key)
+                v = next(x for x in vs2 if classify(x) == (key if known_class else None))
             ctx.violation(key, f"node counter {sc}, {sp} own contents pending, history [{' '.join(se)}]: injected counters {v['sent']} "
                                f"expected {v['expected']} (node counter {v['node_counter']} + pending {v['node_pending']} at injection)",
                           {'counter': sc, 'pending': sp, 'events': se, 'sent': v['sent'], 'expected': v['expected']})
